@@ -1,5 +1,6 @@
 import Grip.Drv.Common
 import Grip.Model.C19
+import Grip.Model.C19Digest
 
 /-
   Driver for C19.  One op = one aggregate step:
@@ -102,8 +103,93 @@ def inexactVals (vals : List JV) : Bool :=
     | .str s => Drv.parseNumText s == .inexact
     | _ => false
 
+/-! ### op "digest": the real t-digest against `Grip.C19.Digest.quantile` -/
+
+open Grip.C19.Digest in
+/-- "<mantissa>p<exp>" = mantissa·2^exp, exactly. -/
+def ratOfText (s : String) : Option Rat :=
+  match s.splitOn "p" with
+  | [m, e] => do
+      let m ← m.toInt?
+      let e ← e.toInt?
+      if e ≥ 0 then pure ((m * (2 : Int) ^ e.toNat : Int) : Rat)
+      else pure (mkRat m (2 ^ (-e).toNat))
+  | _ => none
+
+def ratJ? : Json → Option Rat
+  | .str s => ratOfText s
+  | _ => none
+
+def ansJ? : Json → Option (Option Rat)
+  | .str "nan" => some none
+  | .str s => (ratOfText s).map some
+  | _ => none
+
+def centroidJ? : Json → Option Digest.Centroid
+  | .arr #[m, w] => do pure ⟨← ratJ? m, ← ratJ? w⟩
+  | _ => none
+
+def ratAbs (x : Rat) : Rat := if x < 0 then -x else x
+
+/-- the check of one dumped digest; `none` = everything agrees. -/
+def digestCheck (vals : List Rat) (d : Digest.Digest) (probes : List (Rat × Option Rat)) : Option String :=
+  if !Digest.wf d then some "not-wf"
+  else if Digest.total d.cs != (vals.length : Rat) then some "weight-sum"
+  else
+  let tolOf := fun (scale : Rat) => scale / 1000000000
+  match vals with
+  | [] =>
+    if !d.cs.isEmpty then some "centroids-without-values"
+    else if probes.all (fun p => p.2.isNone && (Digest.quantile d p.1).isNone) then none else some "value-without-input"
+  | v :: vs =>
+    let mn := vs.foldl min v
+    let mx := vs.foldl max v
+    if d.min != mn || d.max != mx then some "min-max"
+    else
+    -- Σ mean·weight = Σ values (up to float rounding of the running means)
+    let mass := d.cs.foldl (fun a c => a + c.mean * c.weight) 0
+    let sum := vals.foldl (· + ·) 0
+    let sabs := vals.foldl (fun a x => a + ratAbs x) 0
+    if ratAbs (mass - sum) > tolOf (sabs + 1) then some "mass"
+    else
+    let tol := tolOf ((mx - mn) + ratAbs mx)
+    let delta : Rat := mkRat 1 (2 ^ 48)
+    let bad := probes.findSome? fun (q, a) =>
+      match Digest.quantile d q, a with
+      | none, none => none
+      | none, some _ => some "value-where-model-nan"
+      | some _, none => some "nan-where-model-value"
+      | some _, some a =>
+        -- `index := q*processedWeight` is rounded in the real code: widen q by 2^-48 both ways;
+        -- the model is monotone in q (Props.C19.quantile_mono), so the real answer must lie between
+        let lo := (Digest.quantile d (max 0 (q - delta))).getD mn
+        let hi := (Digest.quantile d (min 1 (q + delta))).getD mx
+        if a < lo - tol || hi + tol < a then some "quantile-differs"
+        else if a < mn || mx < a then some "outside-min-max"
+        else none
+    match bad with
+    | some w => some w
+    | none =>
+      -- the clause on the real answers: non-decreasing in q
+      let defined := probes.filterMap fun (q, a) => a.map fun a => (q, a)
+      if defined.all fun (q1, a1) => defined.all fun (q2, a2) => !(decide (q1 ≤ q2)) || decide (a1 ≤ a2 + tol)
+      then none else some "decreasing"
+
+def digestStep (j : Json) : Json :=
+  match (arr? j "vals").bind (·.mapM ratJ?), (arr? j "qs").bind (·.mapM ratJ?),
+        (arr? j "cs").bind (·.mapM centroidJ?), (val? j "min").bind ratJ?, (val? j "max").bind ratJ?,
+        (arr? j "ans").bind (·.mapM ansJ?) with
+  | some vals, some qs, some cs, some mn, some mx, some ans =>
+    if qs.length != ans.length then Drv.bad "digest: probes and answers differ in number" else
+    let verdict := match digestCheck vals ⟨cs, mn, mx⟩ (qs.zip ans) with
+      | none => "ok"
+      | some w => w
+    Json.mkObj [("digest", Json.str verdict), ("count", intJ vals.length)]
+  | _, _, _, _, _, _ => Drv.bad "digest: cannot decode"
+
 def step (_ : Unit) (j : Json) : Unit × Json :=
   match str? j "op" with
+  | some "digest" => ((), digestStep j)
   | some "agg" =>
     match (arr? j "rows").bind (·.mapM elemOf), (arr? j "aggs").bind (·.mapM aggOf) with
     | some ts, some aggs =>
